@@ -251,7 +251,7 @@ func schedules(n int) [][]Op {
 		b = append(b, nx)
 	}
 	for i := n - 1; i >= 0; i-- {
-		b = append(b, Op{K: "part", I: i}, Op{K: "all", I: i}, Op{K: "seek", I: i})
+		b = append(b, Op{K: "skip", I: i}, Op{K: "part", I: i}, Op{K: "all", I: i}, Op{K: "seek", I: i})
 	}
 	b = append(b, nx)
 	// c: after each Next re-read every earlier member from the start, first to last
@@ -263,7 +263,7 @@ func schedules(n int) [][]Op {
 	}
 	c = append(c, nx)
 	for j := 0; j < n; j++ {
-		c = append(c, Op{K: "part", I: j})
+		c = append(c, Op{K: "skip", I: j}, Op{K: "part", I: j})
 	}
 	return [][]Op{a, b, c}
 }
